@@ -287,12 +287,7 @@ impl TransactionBuilder {
     if self.outputs[0].script_pubkey == self.recipient {
       tprintln!("no alignment output");
     } else {
-      let dust_limit = self
-        .unused_change_addresses
-        .last()
-        .unwrap()
-        .script_pubkey()
-        .minimal_non_dust();
+      let dust_limit = self.outputs[0].script_pubkey.minimal_non_dust();
 
       if self.outputs[0].value >= dust_limit {
         tprintln!("no padding needed");
